@@ -16,6 +16,9 @@ import (
 	"tinkverif/core"
 )
 
+// MaxDepth is the access-path length after which parameter memory is merged.
+const MaxDepth = 3
+
 // RootKind distinguishes abstract memory roots.
 type RootKind uint8
 
@@ -27,12 +30,12 @@ const (
 )
 
 type root struct {
-	kind RootKind
-	idx  int
-	deep bool
-	g    *ssa.Global
-	site ssa.Value
-	fn   *ssa.Function
+	kind  RootKind
+	idx   int
+	depth uint8 // number of loads from the parameter (MaxDepth: that many or more)
+	g     *ssa.Global
+	site  ssa.Value
+	fn    *ssa.Function
 }
 
 type loc struct {
@@ -64,6 +67,7 @@ type Why struct {
 	Pos  token.Pos
 	Desc string
 	Via  *ssa.Function // callee through which the effect arrived (nil: direct)
+	In   *ssa.Function // function containing the instruction at Pos
 	// Origin: the function and instruction where the effect is direct.
 	OriginFn   *ssa.Function
 	OriginPos  token.Pos
@@ -71,11 +75,11 @@ type Why struct {
 }
 
 func direct(fn *ssa.Function, pos token.Pos, desc string) Why {
-	return Why{Pos: pos, Desc: desc, OriginFn: fn, OriginPos: pos, OriginDesc: desc}
+	return Why{Pos: pos, Desc: desc, In: fn, OriginFn: fn, OriginPos: pos, OriginDesc: desc}
 }
 
 func via(fn *ssa.Function, pos token.Pos, desc string, callee *ssa.Function, w Why) Why {
-	y := Why{Pos: pos, Desc: desc, Via: callee, OriginFn: w.OriginFn, OriginPos: w.OriginPos, OriginDesc: w.OriginDesc}
+	y := Why{Pos: pos, Desc: desc, Via: callee, In: fn, OriginFn: w.OriginFn, OriginPos: w.OriginPos, OriginDesc: w.OriginDesc}
 	if y.OriginFn == nil { // contract of an external callee: the call site is the origin
 		y.OriginFn, y.OriginPos, y.OriginDesc = fn, pos, desc
 	}
@@ -84,17 +88,17 @@ func via(fn *ssa.Function, pos token.Pos, desc string, callee *ssa.Function, w W
 
 // SRoot is a root in a summary's vocabulary.
 type SRoot struct {
-	Kind RootKind // RParam, RGlobal or RFresh
-	Idx  int
-	Deep bool
-	G    *ssa.Global
+	Kind  RootKind // RParam, RGlobal or RFresh
+	Idx   int
+	Depth uint8 // 0: the memory the parameter points to; n: reached by n loads (MaxDepth: n or more)
+	G     *ssa.Global
 }
 
 func (r SRoot) String() string {
 	switch r.Kind {
 	case RParam:
-		if r.Deep {
-			return fmt.Sprintf("memory reachable from param#%d", r.Idx)
+		if r.Depth > 0 {
+			return fmt.Sprintf("memory reachable from param#%d (depth %d)", r.Idx, r.Depth)
 		}
 		return fmt.Sprintf("param#%d", r.Idx)
 	case RGlobal:
@@ -153,7 +157,7 @@ func (s *Summary) WritesParam(i int, shallow, deep bool) (Why, bool) {
 		if k.Root.Kind != RParam || k.Root.Idx != i {
 			continue
 		}
-		if (k.Root.Deep && !deep) || (!k.Root.Deep && !shallow) {
+		if (k.Root.Depth > 0 && !deep) || (k.Root.Depth == 0 && !shallow) {
 			continue
 		}
 		if !found || w.Pos < best.Pos || (w.Pos == best.Pos && w.Desc < best.Desc) {
@@ -330,16 +334,16 @@ func (u *unit) rootOf(key any, r root) int32 {
 }
 
 type paramKey struct {
-	fn   *ssa.Function
-	i    int
-	deep bool
+	fn    *ssa.Function
+	i     int
+	depth uint8
 }
 
-func (u *unit) paramRoot(fn *ssa.Function, i int, deep bool) int32 {
+func (u *unit) paramRoot(fn *ssa.Function, i int, depth uint8) int32 {
 	if fn == u.top {
-		return u.rootOf(paramKey{fn, i, deep}, root{kind: RParam, idx: i, deep: deep})
+		return u.rootOf(paramKey{fn, i, depth}, root{kind: RParam, idx: i, depth: depth})
 	}
-	return u.rootOf(paramKey{fn, i, deep}, root{kind: RCParam, idx: i, fn: fn, deep: deep})
+	return u.rootOf(paramKey{fn, i, depth}, root{kind: RCParam, idx: i, fn: fn, depth: depth})
 }
 func (u *unit) globalRoot(g *ssa.Global) int32 {
 	return u.rootOf(g, root{kind: RGlobal, g: g})
@@ -354,16 +358,15 @@ func (u *unit) isFresh(r int32) bool { return u.roots[r].kind == RFresh }
 func (u *unit) deepOf(r int32) int32 {
 	rt := u.roots[r]
 	switch rt.kind {
-	case RParam:
-		if rt.deep {
+	case RParam, RCParam:
+		if rt.depth >= MaxDepth {
 			return r
 		}
-		return u.rootOf(paramKey{u.top, rt.idx, true}, root{kind: RParam, idx: rt.idx, deep: true})
-	case RCParam:
-		if rt.deep {
-			return r
+		fn := u.top
+		if rt.kind == RCParam {
+			fn = rt.fn
 		}
-		return u.rootOf(paramKey{rt.fn, rt.idx, true}, root{kind: RCParam, idx: rt.idx, fn: rt.fn, deep: true})
+		return u.paramRoot(fn, rt.idx, rt.depth+1)
 	}
 	return r
 }
@@ -450,6 +453,14 @@ func (u *unit) load(addrs locset, t types.Type) locset {
 	return u.loadAll(addrs)
 }
 
+// loadN returns what is reached from s by exactly n loads.
+func (u *unit) loadN(s locset, n int) locset {
+	for i := 0; i < n && len(s) > 0; i++ {
+		s = u.loadAll(s)
+	}
+	return s
+}
+
 // deep returns everything reachable from s by one or more loads.
 func (u *unit) deep(s locset) locset {
 	out := locset{}
@@ -476,9 +487,6 @@ func (u *unit) reachRoots(s locset) map[int32]struct{} {
 	seen := map[int32]struct{}{}
 	for l := range s {
 		seen[l.root] = struct{}{}
-		if !u.isFresh(l.root) {
-			seen[u.deepOf(l.root)] = struct{}{}
-		}
 	}
 	for l := range u.deep(s) {
 		seen[l.root] = struct{}{}
@@ -493,6 +501,16 @@ type writeKey struct {
 
 // recordWrite notes a write of memory of type t ("*": unknown) in root r,
 // unless r cannot contain memory of that type.
+// sameParam: both roots belong to the same parameter (any depth) or are the
+// same root.
+func (u *unit) sameParam(a, b int32) bool {
+	if a == b {
+		return true
+	}
+	ra, rb := u.roots[a], u.roots[b]
+	return ra.kind == rb.kind && (ra.kind == RParam || ra.kind == RCParam) && ra.idx == rb.idx && ra.fn == rb.fn
+}
+
 func (u *unit) recordWrite(r int32, t string, why Why) {
 	if u.isFresh(r) {
 		return
@@ -511,6 +529,15 @@ func (u *unit) recordWrite(r int32, t string, why Why) {
 func writtenType(v ssa.Value) string {
 	if v == nil {
 		return "*"
+	}
+	// a store through &x.f writes (part of) the struct x points to: the struct
+	// type identifies the object far better than the field's type
+	if fa, ok := v.(*ssa.FieldAddr); ok {
+		if pt := pointee(fa.X.Type()); pt != nil {
+			if _, isNamed := types.Unalias(pt).(*types.Named); isNamed {
+				return typeKey(pt)
+			}
+		}
 	}
 	if pt := pointee(v.Type()); pt != nil {
 		return typeKey(pt)
@@ -543,7 +570,7 @@ func (u *unit) store(addrs, val locset, refs bool, t string, why Why) {
 		}
 		if refs {
 			for r := range u.reachRoots(val) {
-				if u.isFresh(r) || r == l.root || r == u.deepOf(l.root) {
+				if u.isFresh(r) || u.sameParam(r, l.root) {
 					continue
 				}
 				k := [2]int32{r, l.root}
@@ -582,13 +609,13 @@ func (u *unit) solve() {
 	for _, fn := range u.fns {
 		for i, p := range fn.Params {
 			if u.a.HasRefs(p.Type()) {
-				u.set(p).add(loc{u.paramRoot(fn, i, false), -1})
+				u.set(p).add(loc{u.paramRoot(fn, i, 0), -1})
 			}
 		}
 		if fn == u.top {
 			for j, fv := range fn.FreeVars { // bound-method wrappers
 				if u.a.HasRefs(fv.Type()) {
-					u.set(fv).add(loc{u.paramRoot(fn, len(fn.Params)+j, false), -1})
+					u.set(fv).add(loc{u.paramRoot(fn, len(fn.Params)+j, 0), -1})
 				}
 			}
 		}
@@ -814,11 +841,11 @@ func (u *unit) sroot(r int32, fn *ssa.Function) (SRoot, bool) {
 		return SRoot{Kind: RFresh}, true
 	case RParam:
 		if fn == u.top {
-			return SRoot{Kind: RParam, Idx: rt.idx, Deep: rt.deep}, true
+			return SRoot{Kind: RParam, Idx: rt.idx, Depth: rt.depth}, true
 		}
 	case RCParam:
 		if rt.fn == fn {
-			return SRoot{Kind: RParam, Idx: rt.idx, Deep: rt.deep}, true
+			return SRoot{Kind: RParam, Idx: rt.idx, Depth: rt.depth}, true
 		}
 	}
 	return SRoot{}, false
@@ -828,6 +855,9 @@ func (u *unit) summarise() {
 	for _, fn := range u.fns {
 		s := u.a.Sum[fn]
 		for wk, why := range u.writes {
+			if fn != u.top && !within(why.In, fn) {
+				continue // a closure's summary holds only the effects of its own body
+			}
 			if sr, ok := u.sroot(wk.r, fn); ok && sr.Kind != RFresh {
 				k := WKey{sr, wk.t}
 				if _, ok := s.W[k]; !ok {
@@ -836,6 +866,9 @@ func (u *unit) summarise() {
 			}
 		}
 		for k, why := range u.retains {
+			if fn != u.top && !within(why.In, fn) {
+				continue
+			}
 			from, ok1 := u.sroot(k[0], fn)
 			to, ok2 := u.sroot(k[1], fn)
 			if !ok1 || !ok2 {
@@ -878,9 +911,12 @@ func (u *unit) summarise() {
 							w := why
 							if ew, ok := u.edgeWhy[l.root]; ok {
 								w = ew
-							} else if rt := u.roots[l.root]; rt.deep {
-								if ew, ok := u.edgeWhy[u.paramRoot(fnOfRoot(u, rt), rt.idx, false)]; ok {
-									w = ew
+							} else if rt := u.roots[l.root]; rt.depth > 0 {
+								for d := int(rt.depth) - 1; d >= 0; d-- {
+									if ew, ok := u.edgeWhy[u.paramRoot(fnOfRoot(u, rt), rt.idx, uint8(d))]; ok {
+										w = ew
+										break
+									}
 								}
 							}
 							s.RC[j][sr] = w
@@ -897,4 +933,14 @@ func fnOfRoot(u *unit, rt root) *ssa.Function {
 		return rt.fn
 	}
 	return u.top
+}
+
+// within reports whether g is fn or nested inside it.
+func within(g, fn *ssa.Function) bool {
+	for ; g != nil; g = g.Parent() {
+		if g == fn {
+			return true
+		}
+	}
+	return false
 }
